@@ -156,128 +156,29 @@ def rule_draw_in_loop(ctx, cfg='prod-all', rule='RF-G2'):
     yield Ob(rule, '%s#count' % fn, retlen == ('p1', 0), 'the vector has exactly `count` elements', b.span, fact=tfmt(retlen), expected='p1 (= count)')
 
 
-def _role_indexes(zf, var):
-    """{user variable: constant index} for `let x = var[k]` and the range start of `&var[a..b]`."""
-    body = zf.body
-    out = {}
-    rng = {}
-    for bi, blk in enumerate(body.blocks):
-        if blk['cleanup']:
+RANDOM_VECTOR_ROOTS = ('calculate_random_scalars', 'seeded_random_scalars')
+
+
+def _role_indexes(ctx, cfg, fn):
+    """{user variable: constant position}, {user variable: (start, end)} of the vector of random scalars, for every named local
+    of fn that is one element / one sub-slice of that vector.  The vector is followed from the call that draws it through
+    parameters, struct fields, slice patterns and helpers (vecpos)."""
+    import vecpos
+    body = ctx.prog(cfg).bodies[fn]
+    names = {loc.get('name') for loc in body.locals if loc.get('name')}
+    res, visited = vecpos.named_positions(ctx, cfg, fn, names, RANDOM_VECTOR_ROOTS)
+    out, rng = {}, {}
+    for nm, ps in res.items():
+        if len(ps) != 1:
             continue
-        for s in blk['stmts']:
-            if s['k'] != 'assign' or s['dst'].get('p'):
-                continue
-            nm = body.locals[s['dst']['l']].get('name')
-            rv = s['rv']
-            if nm and rv['k'] == 'use' and rv['op']['k'] in ('copy', 'move'):
-                pl = rv['op']['pl']
-                ps = pl.get('p', [])
-                if any(p['k'] == 'index' for p in ps):
-                    root, _ = zf.fd.resolve_place({'l': pl['l']})
-                    if body.local_name(root) == var:
-                        ix = [p for p in ps if p['k'] == 'index'][0]['l']
-                        t = zf.term_local(ix)
-                        if t is not None and t[0] is None:
-                            out[nm] = t[1]
-        t = blk['term']
-        if t['k'] == 'call' and (t.get('callee') or '') == 'std::ops::Index::index' and len(t['args']) == 2:
-            a0 = t['args'][0]
-            if a0['k'] in ('copy', 'move'):
-                root, _ = zf.fd.resolve_place(a0['pl'])
-                if body.local_name(root) == var:
-                    r = zf._range_arg(t['args'][1])
-                    if r is None:
-                        kt = zf.term_op(t['args'][1])
-                        if kt is not None and kt[0] is None:
-                            dst = t['dst']['l']
-                            for bj, s2 in body.stmts():
-                                if s2['k'] == 'assign' and not s2['dst'].get('p') and body.locals[s2['dst']['l']].get('name') \
-                                        and s2['rv']['k'] == 'use' and s2['rv']['op']['k'] in ('copy', 'move'):
-                                    pl2 = s2['rv']['op']['pl']
-                                    if pl2['l'] == dst and any(p['k'] == 'deref' for p in pl2.get('p', [])):
-                                        out[body.locals[s2['dst']['l']]['name']] = kt[1]
-                    if r and r[0] in ('range', 'from'):
-                        # which user variable receives it
-                        dst = t['dst']['l']
-                        for bj, s2 in body.stmts():
-                            if s2['k'] == 'assign' and body.locals[s2['dst']['l']].get('name') and s2['rv']['k'] in ('ref', 'use'):
-                                pl2 = s2['rv'].get('pl') or s2['rv'].get('op', {}).get('pl')
-                                if pl2 and zf.fd.base(pl2['l'])[0] == zf.fd.base(dst)[0] and pl2['l'] != 0:
-                                    rng[body.locals[s2['dst']['l']]['name']] = (r[1], r[2])
-    # roles named by a helper: `let Roles { r1, r2, .. } = Roles::split(var, ..)` - the helper's struct fields carry the positions
-    from flow import local_target as _lt
-    eng = zf.za.eng
-    for bi, t in body.calls():
-        tgt = _lt(eng, t)
-        if tgt is None or tgt == body.path or tgt not in zf.za.prog.bodies:
+        pos = next(iter(ps))
+        if pos is None:
             continue
-        karg = None
-        for k, a in enumerate(t['args']):
-            if a['k'] in ('copy', 'move') and body.local_name(zf.fd.resolve_place(a['pl'])[0]) == var:
-                karg = k
-        if karg is None or t['dst'].get('p'):
-            continue
-        cb = zf.za.prog.bodies[tgt]
-        czf = zf.za.zf(tgt)
-        zf.za.summary(tgt)
-        pname = cb.local_name(karg + 1)
-        fmap, frng = _struct_roles(czf, pname)
-        if not fmap and not frng:
-            continue
-        dst = t['dst']['l']
-        for bj, s2 in body.stmts():
-            if s2['k'] != 'assign' or s2['dst'].get('p') or not body.locals[s2['dst']['l']].get('name'):
-                continue
-            rv2 = s2['rv']
-            pl2 = rv2.get('op', {}).get('pl') if rv2['k'] == 'use' else (rv2.get('pl') if rv2['k'] == 'ref' else None)
-            if not pl2 or pl2['l'] != dst:
-                continue
-            fl = [p for p in pl2.get('p', []) if p['k'] == 'field']
-            if len(fl) != 1:
-                continue
-            nm = body.locals[s2['dst']['l']]['name']
-            if fl[0]['n'] in fmap:
-                out[nm] = fmap[fl[0]['n']]
-            elif fl[0]['n'] in frng:
-                rng[nm] = frng[fl[0]['n']]
+        if pos[0] == 'idx':
+            out[nm] = pos[1]
+        elif pos[0] == 'rng' and not (pos[1] == (None, 0) and pos[2] is None):
+            rng[nm] = (pos[1], pos[2])
     return out, rng
-
-
-def _struct_roles(czf, pname):
-    """for a helper that returns a struct whose fields are `param[k]` / `&param[a..b]`: {field: k}, {field: (a, b)}"""
-    body = czf.body
-    fmap, frng = {}, {}
-    for bi, s in body.stmts():
-        if s['k'] == 'assign' and s['dst']['l'] == 0 and not s['dst'].get('p') and s['rv']['k'] == 'agg' and s['rv'].get('ak') == 'adt':
-            for f, o in zip(s['rv']['fields'], s['rv']['ops']):
-                if o['k'] not in ('copy', 'move'):
-                    continue
-                l = o['pl']['l']
-                for _ in range(4):
-                    d = czf.single_def(l)
-                    if d is None:
-                        break
-                    if d[0] == 'assign' and d[2]['rv']['k'] == 'use' and d[2]['rv']['op']['k'] in ('copy', 'move'):
-                        pl = d[2]['rv']['op']['pl']
-                        ix = [p for p in pl.get('p', []) if p['k'] == 'index']
-                        if ix and body.local_name(czf.fd.resolve_place({'l': pl['l']})[0]) == pname:
-                            t = czf.term_local(ix[0]['l'])
-                            if t is not None and t[0] is None:
-                                fmap[f] = t[1]
-                            break
-                        l = pl['l']
-                        continue
-                    if d[0] == 'assign' and d[2]['rv']['k'] == 'ref':
-                        l = d[2]['rv']['pl']['l']
-                        continue
-                    if d[0] == 'call' and (d[2].get('callee') or '') == 'std::ops::Index::index' and len(d[2]['args']) == 2 and d[2]['args'][0]['k'] in ('copy', 'move'):
-                        if body.local_name(czf.fd.resolve_place(d[2]['args'][0]['pl'])[0]) == pname:
-                            r = czf._range_arg(d[2]['args'][1])
-                            if r and r[0] in ('range', 'from'):
-                                frng[f] = (r[1], r[2])
-                        break
-                    break
-    return fmap, frng
 
 
 def rule_role_projection(ctx, cfg='prod-all', rule='RF-G2'):
@@ -294,7 +195,7 @@ def rule_role_projection(ctx, cfg='prod-all', rule='RF-G2'):
             raise AnchorMissing(fn)
         za.summary(fn)
         zf = za.zf(fn)
-        idx, rng = _role_indexes(zf, var)
+        idx, rng = _role_indexes(ctx, cfg, fn)
         maps[fn] = idx
         vals = list(idx.values())
         distinct = len(set(vals)) == len(vals) and len(vals) >= len(exp)
@@ -321,7 +222,7 @@ def rule_response_masks(ctx, cfg='prod-all', rule='RF-G4'):
     za.summary(fn)
     zf = za.zf(fn)
     fd = zf.fd
-    idx, rng = _role_indexes(zf, 'random_scalars')
+    idx, rng = _role_indexes(ctx, cfg, fn)
     # the final aggregate
     agg = None
     for bi, s in b.stmts():
@@ -371,6 +272,11 @@ def rule_response_masks(ctx, cfg='prod-all', rule='RF-G4'):
     yield Ob(rule, '%s#masks-distinct' % fn, len(set(ms)) == len(ms) == 3, 'the three fixed responses use three different masks', b.span, fact=used, expected='3 distinct')
     # no proof field is a plain copy of a secret input
     secrets = {'e', 'undisclosed_messages', 'random_scalars'}
+    for l, loc in enumerate(b.locals):
+        if loc.get('name') in idx or loc.get('name') in rng:
+            for a in fd.read_op({'k': 'copy', 'pl': {'l': l}}):
+                if strip(a)[0] == 'p':
+                    secrets.add(b.local_name(strip(a)[1]))
     for f, o in zip(agg['fields'], agg['ops']):
         if o['k'] in ('copy', 'move'):
             r, p = fd.resolve_place(o['pl'])
@@ -382,13 +288,20 @@ def rule_response_masks(ctx, cfg='prod-all', rule='RF-G4'):
     if pi is None:
         raise AnchorMissing('proof_init')
     fdi = eng.fndep(pi.path)
+    # parameters of proof_init that carry the random vector: the ones its role variables are read from
+    ridx, rrng = _role_indexes(ctx, cfg, pi.path)
+    rs_params = set()
+    for l, loc in enumerate(pi.locals):
+        if loc.get('name') in ridx or loc.get('name') in rrng:
+            for a in fdi.read_op({'k': 'copy', 'pl': {'l': l}}):
+                if strip(a)[0] == 'p':
+                    rs_params.add(strip(a)[1])
     for bi, s in pi.stmts():
         if s['k'] == 'assign' and s['rv']['k'] == 'agg' and s['rv']['name'].endswith('ProofInitResult'):
             for f, o in zip(s['rv']['fields'], s['rv']['ops']):
                 if f in ('Abar', 'Bbar', 'D') and o['k'] in ('copy', 'move'):
                     at = fdi.read_op(o)
-                    rs = pi.param_index('random_scalars')
-                    masked = any(strip(a)[0] == 'p' and strip(a)[1] == rs for a in at)
+                    masked = any(strip(a)[0] == 'p' and strip(a)[1] in rs_params for a in at)
                     r, p = fdi.resolve_place(o['pl'])
                     yield Ob(rule, '%s#randomised:%s' % (pi.path, f), masked and not fdi.is_param(r),
                              'transmitted point depends on fresh randomness and is not a copy of a signature component', pi.span,
@@ -481,12 +394,24 @@ def rule_cfg_twins(ctx, rule='RF-O'):
     for cfg in ('prod-all',):
         prog, za = ctx.prog(cfg), ctx.zone(cfg)
         pi = 'bbsplus::proof::proof_init'
-        post = za.summary(pi)['post']
-        want1 = (('len:random_scalars', 0), ('len:undisclosed_indexes', 5))
-        want2 = (('len:undisclosed_indexes', 5), ('len:random_scalars', 0))
-        ok = want1 in post and want2 in post
-        yield Ob(rule, '%s#consumer-guard' % pi, ok, 'proof_init succeeds only if len(random_scalars) == 5 + U', '',
-                 fact=[(tfmt(a), tfmt(b)) for a, b in post][:8], expected='len(random_scalars) == len(undisclosed_indexes) + 5')
+        # some function on the way from the draw to proof_init's roles succeeds only if len(vector) == 5 + (a count)
+        import vecpos
+        _, visited = vecpos.named_positions(ctx, cfg, pi, {'m_tilde', 'r1'}, RANDOM_VECTOR_ROOTS)
+        ok, seen = False, {}
+        for f in sorted(visited | {pi}):
+            post = set(za.summary(f)['post'])
+            seen[f.split('::')[-1]] = [(tfmt(a), tfmt(b)) for a, b in post][:6]
+            for a, b in post:
+                if a[0] and b[0] and a[0] != b[0] and (b, a) in post:
+                    for v, o in ((a, b), (b, a)):
+                        # len:v + v1 == o0 + o1  <=>  len:v == o0 + (o1 - v1)
+                        if v[0].startswith('len:') and not o[0].startswith('N:') and o[1] - v[1] == 5 and f in visited:
+                            fb = prog.bodies[f]
+                            k = fb.param_index(v[0][4:].split('.')[0])
+                            if k is not None and fb.local_ty(k).lstrip('&').strip().startswith(('[', 'std::vec::Vec<')):
+                                ok = True
+        yield Ob(rule, '%s#consumer-guard' % pi, ok, 'proof_init (or the helper that names the roles) succeeds only if len(random vector) == 5 + U', '',
+                 fact=seen, expected='len(random_scalars) == (count) + 5 in a postcondition')
         # in core_proof_gen the production vector has 5 + U elements where U is the checked difference L - R
         cpg = 'bbsplus::proof::core_proof_gen'
         za.summary(cpg)
